@@ -1,6 +1,8 @@
 package main
 
 import (
+	"runtime/debug"
+	"runtime/pprof"
 	"encoding/json"
 	"flag"
 	"fmt"
@@ -173,6 +175,7 @@ func main() {
 	work := fs.String("work", "", "work dir")
 	verif := fs.String("verif", "/verif", "verif dir")
 	timeout := fs.Int("timeout", 0, "per-query timeout (s)")
+	cpuprof := fs.String("cpuprofile", "", "write a CPU profile")
 	updBase := fs.Bool("update-baseline", false, "record the obligation names of this run as the baseline")
 	var pos []string
 	args := os.Args[2:]
@@ -193,6 +196,13 @@ func main() {
 		tmo = *timeout
 	}
 	gTier = *tier
+	debug.SetGCPercent(600) // the loaded program is a large, static heap: collect less often
+	if *cpuprof != "" {
+		if f, err := os.Create(*cpuprof); err == nil {
+			pprof.StartCPUProfile(f)
+			defer pprof.StopCPUProfile()
+		}
+	}
 	t0 := time.Now()
 	switch cmd {
 	case "list":
